@@ -71,7 +71,19 @@ def bool_gates(body, pred):
             continue
         if pred(sc[1]):
             out.append((b, sc[1], [(b, t) for t in sc[2]], [(b, t) for t in sc[3]]))
-        elif sc[1][0] in ('t', 'v'):
+            continue
+        if sc[1][0] == 'v':
+            # a named single-definition boolean (`let filled = ..; if !filled`)
+            x = expand_vars(body, sc[1])
+            neg = False
+            while x[0] == 'un' and x[1] == 'Not':
+                x = x[2]
+                neg = not neg
+            if x != sc[1] and pred(x):
+                te, fe = [(b, t) for t in sc[2]], [(b, t) for t in sc[3]]
+                out.append((b, x, fe, te) if neg else (b, x, te, fe))
+                continue
+        if sc[1][0] in ('t', 'v'):
             # the tested boolean was computed into a temporary on several paths (`a && b`, an inlined bool helper)
             for db, term, te, fe in body.virtual_conds(b):
                 if pred(term):
@@ -320,9 +332,12 @@ def rewrite(t, fn):
 
 
 def expand_vars(body, t, keep=()):
-    """Replace single-definition, non-parameter named locals by their definitions (for loop-free helpers)."""
+    """Replace single-definition, non-parameter named locals by their definitions. `keep` is a collection of names or a
+    predicate on variable terms that are to be left alone."""
+    kept = keep if callable(keep) else (lambda x: x[1] in keep)
+
     def fn(x):
-        if x[0] == 'v' and x[1] not in keep and not (1 <= x[2] <= body.j['arg_count']):
+        if x[0] == 'v' and x[2] >= 0 and not kept(x) and not (1 <= x[2] <= body.j['arg_count']):
             y = body.def_term(x[2])
             if y is not None and y != x:
                 return expand_vars(body, y, keep)
@@ -652,3 +667,203 @@ def value_roots(body, term, blk, idx='term', _seen=None):
             out += value_roots(body, dt, db, di, _seen)
         return out
     return [t]
+
+
+# ---------------------------------------------------------------- finite abstract evaluation, general form (E4)
+class EvalPanic(Exception):
+    pass
+
+
+class Unsupported(Exception):
+    pass
+
+
+class Eval:
+    """Evaluates a loop-free (or boundedly looping) pure function on one assignment of its inputs. `atoms(term)` maps
+    input terms (parameters, field paths, getter calls) to integers. Integers are unbounded; overflow asserts of the MIR are
+    honoured (a failing assert / panic call raises EvalPanic). Used to decide small arithmetic contracts by enumerating a
+    finite grid that covers every relative ordering of the inputs (comparison / difference logic has the small-model property)."""
+
+    PURE = {
+        'core::cmp::max': lambda a, b: max(a, b), 'core::cmp::min': lambda a, b: min(a, b),
+        'core::cmp::Ord::max': lambda a, b: max(a, b), 'core::cmp::Ord::min': lambda a, b: min(a, b),
+        'core::num::saturating_sub': lambda a, b: max(0, a - b),
+        'core::num::wrapping_add': lambda a, b: a + b, 'core::num::wrapping_sub': lambda a, b: a - b,
+        'core::num::checked_sub': lambda a, b: ('Some', a - b) if a >= b else ('None',),
+        'core::num::checked_add': lambda a, b: ('Some', a + b),
+        'core::num::checked_mul': lambda a, b: ('Some', a * b),
+        'core::num::next_power_of_two': lambda a: 1 if a <= 1 else 1 << (a - 1).bit_length(),
+        'alloc::vec::from_elem': lambda x, n: ('vec', x, n),
+    }
+
+    def __init__(self, body, atoms, maxsteps=2000):
+        self.b, self.atoms, self.maxsteps = body, atoms, maxsteps
+        self.mem = {}
+
+    def val(self, t):
+        t0 = t
+        a = self.atoms(t)
+        if a is not None:
+            return a
+        if t[0] == 'conv':
+            return self.val(t[2])
+        if t[0] == 'cast':
+            return self.val(t[2])
+        k = t[0]
+        if k == 'c':
+            return t[1]
+        if k == 'k' and t[2] is not None:
+            return t[2]
+        if k == 'v':
+            if t[2] in self.mem:
+                return self.mem[t[2]]
+            d = self.b.def_term(t[2])
+            if d is not None:
+                return self.val(d)
+            raise Unsupported('variable %s' % t[1])
+        if k == 't':
+            if t[1] in self.mem:
+                return self.mem[t[1]]
+            raise Unsupported('temporary _%d' % t[1])
+        if k == 'un' and t[1] == 'Not':
+            return int(not self.val(t[2]))
+        if k == 'op':
+            x, y = self.val(t[2]), self.val(t[3])
+            o = t[1].replace('WithOverflow', '').replace('Unchecked', '')
+            f = {'Add': lambda: x + y, 'Sub': lambda: x - y, 'Mul': lambda: x * y, 'Div': lambda: x // y, 'Rem': lambda: x % y,
+                 'Shr': lambda: x >> y, 'Shl': lambda: x << y, 'BitAnd': lambda: x & y, 'BitOr': lambda: x | y, 'BitXor': lambda: x ^ y,
+                 'Eq': lambda: int(x == y), 'Ne': lambda: int(x != y), 'Lt': lambda: int(x < y), 'Le': lambda: int(x <= y),
+                 'Gt': lambda: int(x > y), 'Ge': lambda: int(x >= y)}
+            if o not in f:
+                raise Unsupported(o)
+            r = f[o]()
+            if o == 'Sub' and isinstance(r, int) and r < 0:
+                raise EvalPanic('subtraction underflow')
+            return r
+        if k == 'ovf':
+            inner = t[1]
+            x, y = self.val(inner[2]), self.val(inner[3])
+            if inner[1].startswith('Sub'):
+                return int(x - y < 0)
+            return 0
+        if k == 'agg':
+            if isinstance(t[3], dict):
+                return ('agg', t[1].rsplit('::', 1)[-1], t[2], tuple(sorted((f0, self.val(v)) for f0, v in t[3].items())))
+            return ('agg', t[1], t[2], tuple(self.val(v) for v in t[3]))
+        if k == 'call':
+            nm = short(t[1])
+            if nm in self.PURE:
+                return self.PURE[nm](*[self.val(x) for x in t[2]])
+            if re.search(r'core::option::Option::(unwrap|expect)$', nm):
+                v = self.val(t[2][0])
+                if isinstance(v, tuple) and v[0] == 'None':
+                    raise EvalPanic('unwrap on None')
+                return v[1] if isinstance(v, tuple) and v[0] == 'Some' else v
+            if re.search(r'core::panicking::', nm):
+                raise EvalPanic(nm)
+            if re.search(r'PartialEq::(eq|ne)$|PartialOrd::(lt|le|gt|ge)$', nm):
+                x, y = self.val(t[2][0]), self.val(t[2][1])
+                op = nm.rsplit('::', 1)[1]
+                return int({'eq': x == y, 'ne': x != y, 'lt': x < y, 'le': x <= y, 'gt': x > y, 'ge': x >= y}[op])
+            raise Unsupported('call %s' % nm)
+        if k == 'f' and t[1][0] == 'dc':
+            v = self.val(t[1][1])
+            if isinstance(v, tuple) and v[0] == 'Some':
+                return v[1]
+        if k == 'discr':
+            v = self.val(t[1])
+            if isinstance(v, tuple) and v[0] in ('Some', 'None'):
+                return 1 if v[0] == 'Some' else 0
+        raise Unsupported(tstr(t0, 80))
+
+    def run(self):
+        b = self.b
+        blk = 0
+        for _ in range(self.maxsteps):
+            for st in b.blocks[blk]['stmts']:
+                if st['k'] == 'assign' and not st['p']['pr']:
+                    l = st['p']['l']
+                    multi = len(b.defs().get(l, [])) > 1
+                    if l == 0 or multi or b.locals[l]['names']:
+                        try:
+                            self.mem[l] = self.val(b.rvalue_term(st['r'], 0, blk))
+                        except Unsupported:
+                            if l == 0:
+                                raise
+                            self.mem.pop(l, None)
+            t = b.term(blk)
+            k = t['k']
+            if k == 'return':
+                return self.mem.get(0)
+            if k == 'call':
+                ct = b.call_term(blk, t)
+                if re.search(r'core::panicking::', short(ct[1])):
+                    raise EvalPanic(short(ct[1]))
+                d = t['dest']
+                if not d['pr']:
+                    l = d['l']
+                    if l == 0 or len(b.defs().get(l, [])) > 1 or b.locals[l]['names']:
+                        try:
+                            self.mem[l] = self.val(ct)
+                        except Unsupported:
+                            if l == 0:
+                                raise
+                            self.mem.pop(l, None)
+                if t['target'] is None:
+                    raise EvalPanic('diverging call')
+                blk = t['target']
+            elif k == 'switch':
+                sc = b.switch_cond(blk)
+                if sc[0] == 'bool':
+                    blk = (sc[2] if self.val(sc[1]) else sc[3])[0]
+                else:
+                    v = self.val(sc[1])
+                    nxt = [tg for x, tg in sc[2] if x == v]
+                    blk = nxt[0] if nxt else sc[3]
+            elif k == 'assert':
+                c = self.val(b.operand_term(t['cond'], 0, blk))
+                if bool(c) != bool(t['expected']):
+                    raise EvalPanic('assert %s' % t['msg'])
+                blk = t['target']
+            elif k in ('goto', 'drop'):
+                blk = t['target']
+            else:
+                raise Unsupported(k)
+        raise Unsupported('too many steps')
+
+
+def enum_gates(body, ty_pat, pred=None):
+    """Switches on the discriminant of a value whose type matches ty_pat: [(block, term, {variant_value: target}, otherwise)]."""
+    out = []
+    for b, sc in body.switches():
+        if sc[0] != 'int' or sc[1][0] != 'discr':
+            continue
+        of = body.switch_discr_type(b) or ''
+        if not re.search(ty_pat, of):
+            continue
+        x = expand_vars(body, sc[1][1])
+        if pred is not None and not pred(x):
+            continue
+        out.append((b, x, dict((v, tg) for v, tg in sc[2]), sc[3]))
+    return out
+
+
+def arm_edges(body, gate, value):
+    """Edges of an enum gate taken for discriminant `value` (the explicit arm, or `otherwise` when the value is not listed)."""
+    from .mir import Edge
+    b, x, arms, oth = gate
+    if value in arms:
+        return [Edge(b, arms[value])]
+    if body.blocks[oth]['term']['k'] != 'unreachable':
+        return [Edge(b, oth)]
+    return []
+
+
+def other_edges(body, gate, value):
+    """Edges of an enum gate NOT taken for discriminant `value`."""
+    from .mir import Edge
+    b, x, arms, oth = gate
+    out = [Edge(b, tg) for v, tg in arms.items() if v != value]
+    if value in arms and body.blocks[oth]['term']['k'] != 'unreachable':
+        out.append(Edge(b, oth))
+    return out
